@@ -1504,14 +1504,22 @@ func (g *gen) writeInitializerImpl(b *buffer, n *a.Struct) error {
 			// See gen.packagePrefix for a related TODO with otherPkg.
 			otherPkg := g.tm.ByID(qid[0])
 			prefix = "wuffs_" + otherPkg + "__"
-		} else if g.structMap[qid] == nil {
+		} else if s := g.structMap[qid]; (s == nil) || !s.Classy() {
+			// Only classy structs have an initialize function. A plain
+			// struct is fully initialized by being zeroed.
 			continue
 		}
 
+		// The field lives in private_impl or in private_data, depending on
+		// which group of the struct declaration it is in.
+		where := "private_impl"
+		if f.PrivateData() {
+			where = "private_data"
+		}
 		b.printf("{\n")
 		b.printf("wuffs_base__status z = %s%s__initialize(\n"+
-			"&self->private_data.%s%s, sizeof(self->private_data.%s%s), WUFFS_VERSION, options);\n",
-			prefix, qid[1].Str(g.tm), fPrefix, f.Name().Str(g.tm), fPrefix, f.Name().Str(g.tm))
+			"&self->%s.%s%s, sizeof(self->%s.%s%s), WUFFS_VERSION, options);\n",
+			prefix, qid[1].Str(g.tm), where, fPrefix, f.Name().Str(g.tm), where, fPrefix, f.Name().Str(g.tm))
 		b.printf("if (z.repr) {\nreturn z;\n}\n")
 		b.printf("}\n")
 	}
